@@ -114,8 +114,12 @@ class Daemon:
         self._mm[0:8] = struct.pack("<q", t)
 
     def start(self, wait=10.0):
-        self.p = subprocess.Popen(self.args, env=self.env, stdout=subprocess.DEVNULL, stderr=subprocess.PIPE,
+        # stderr goes to a file: a pipe nobody drains fills up after ~2000 log lines and blocks the daemon
+        self._errf = open(os.path.join(self.dir, "stderr"), "wb")
+        self.p = subprocess.Popen(self.args, env=self.env, stdout=subprocess.DEVNULL, stderr=self._errf,
                                   cwd=self.dir)
+        import atexit
+        atexit.register(self._kill)
         t0 = time.time()
         while time.time() - t0 < wait:
             if os.path.exists(self.sock):
@@ -130,6 +134,13 @@ class Daemon:
                 return False
             time.sleep(0.02)
         return False
+
+    def _kill(self):
+        try:
+            if self.p is not None and self.p.poll() is None:
+                self.p.kill()
+        except Exception:
+            pass
 
     def alive(self):
         return self.p is not None and self.p.poll() is None
@@ -156,7 +167,8 @@ class Daemon:
                     self.p.kill()
             rc = self.p.wait()
             try:
-                self.stderr = self.p.stderr.read().decode(errors="replace")
+                self._errf.close()
+                self.stderr = open(os.path.join(self.dir, "stderr"), errors="replace").read()
             except Exception:
                 self.stderr = ""
         return rc, self.sanitizer_report()
@@ -333,3 +345,23 @@ def canary(path):
     if d is None or d["error_num"] != 0 or d["data"] != payload:
         return "canary decode failed: %s %s" % (st, d and (d["error_num"], d["error_str"]))
     return None
+
+
+LIBMUNGE_SRCS = ["auth_send.c", "ctx.c", "decode.c", "encode.c", "enum.c", "m_msg_client.c", "strerror.c"]
+
+
+def build_lmclient(ctx, san="address", wraps=(), extra_src=()):
+    """lmclient linked against libmunge built from /repo's sources"""
+    R = vlib.REPO
+    src = [os.path.join(vlib.HARNESS, "lmclient.c")]
+    src += [os.path.join(R, "src/libmunge", f) for f in LIBMUNGE_SRCS]
+    src += [os.path.join(R, "src/libcommon", f) for f in ("fd.c", "m_msg.c", "str.c", "log.c", "daemonpipe.c")]
+    src += [os.path.join(R, "src/libmissing", f) for f in LIBMISSING_SRCS] + list(extra_src)
+    exe = os.path.join(ctx.tmp, "lmclient")
+    flags = ["-g", "-O1"] + (["-fsanitize=address"] if san == "address" else [])
+    wl = ["-Wl," + ",".join("--wrap=" + x for x in wraps)] if wraps else []
+    cmd = ["gcc", "-w"] + flags + vlib.DEFS + vlib.INCS + ["-o", exe] + src + wl + ["-lpthread"]
+    rc, out, err = vlib.sh(cmd, timeout=300)
+    if rc != 0:
+        return None, err[-3000:]
+    return exe, ""
